@@ -212,3 +212,12 @@ def run(prog, chk):
                   primary=False, floor=5)
     if memrules.dangling_under_kind(prog, r5) < 5:
         raise Broken("kind stores vanished")
+
+    r6 = chk.rule("R6-shell-free-keeps-no-fields", "in the DESERIALIZE family (which the ownership typestate cannot model) an object whose "
+                  "pointer field holds a fresh allocation is not released by a plain free() - nor left behind with an unset kind - "
+                  "on a path through a call that can fail for lack of memory, unless that field was released first",
+                  primary=False, floor=3)
+    fam = [f for (f, v) in c16.OWN_EXEMPT if v is None]
+    n6 = memrules.shell_free_with_fields(prog, r6, fam, may_fail | set(memrules.ALLOCS))
+    if n6 < 3:
+        raise Broken("only %d field-store / shell-free pairs found in %s" % (n6, fam))
